@@ -2,7 +2,8 @@
 From Coq Require Import ZArith List Bool String Ascii Lia PeanoNat.
 From KV Require Import Base.Sx Base.Str Base.SelSlice Gen.Generated Model.Select
   Proofs.SelectBaseP Proofs.SelectP Proofs.SelectLawsP Model.ConcatSel Proofs.ConcatSelP Model.ConcatMulti.
-From KV Require Model.Categorical Model.Concat Model.ConcatIdent Proofs.CategoricalP Proofs.CategoricalConcatP Proofs.ConcatP.
+From KV Require Model.Categorical Model.Concat Model.ConcatIdent Proofs.CategoricalP Proofs.CategoricalConcatP Proofs.ConcatP
+  Proofs.ConcatIdentP.
 Import ListNotations.
 Open Scope Z_scope.
 
@@ -201,3 +202,61 @@ Proof.
     rewrite ST, <- Lseg, band_true_l. exact T1.
   - rewrite ST, <- Lseg, band_false_l. reflexivity.
 Qed.
+
+(* ------------------------------------------------------------------ 4. merged exactly when identical *)
+Lemma zindex_inj (u : list Z) a b : In a u -> In b u -> zindex u a = zindex u b -> a = b.
+Proof.
+  intros Ia Ib E. unfold Concat.zindex in E.
+  destruct (CategoricalConcatP.index_of_In Z.eqb Z.eqb_eq u a Ia) as (i & Hi).
+  destruct (CategoricalConcatP.index_of_In Z.eqb Z.eqb_eq u b Ib) as (j & Hj). rewrite Hi, Hj in E.
+  apply Nat2Z.inj in E. subst j.
+  destruct (CategoricalConcatP.index_of_Some Z.eqb 0 Z.eqb_eq u a i Hi) as (_ & Na).
+  destruct (CategoricalConcatP.index_of_Some Z.eqb 0 Z.eqb_eq u b i Hj) as (_ & Nb). congruence.
+Qed.
+
+Lemma same_index_iff_same_id (f : Concat.part -> Concat.cdz) ps p q a b :
+  In p ps -> In q ps -> uv (f p) = [a] -> uv (f q) = [b] ->
+  (zindex (Concat.spec_uniq f ps) a = zindex (Concat.spec_uniq f ps) b <-> a = b).
+Proof.
+  intros Ip Iq Ua Ub. split; [|intro; subst; reflexivity]. apply zindex_inj.
+  - apply (CategoricalConcatP.uio_In Z.eqb Z.eqb_eq). apply in_flat_map. exists p. split; [exact Ip|]. rewrite Ua. left. reflexivity.
+  - apply (CategoricalConcatP.uio_In Z.eqb Z.eqb_eq). apply in_flat_map. exists q. split; [exact Iq|]. rewrite Ub. left. reflexivity.
+Qed.
+
+(* Two parts get the same subarray index in the whole -- their subarrays are MERGED -- exactly when their subarrays
+   are identical: the same antennas in the same order and the same correlation products in the same order.
+   rp, rq: the table positions the harness entered the two parts' subarrays at. *)
+Theorem subarrays_merged_iff_identical : forall (tbl : list ConcatIdent.subarray) input ps m p q rp rq,
+  Concat.sort_parts input = Some ps -> Forall ConcatP.part_ok ps -> Concat.concat_open input = Concat.COk m ->
+  In p ps -> In q ps -> (rp < List.length tbl)%nat -> (rq < List.length tbl)%nat ->
+  uv (Concat.p_sub p) = [Z.of_nat (nth rp (ConcatIdent.intern_ids ConcatIdent.sub_eqb tbl) 0%nat)] ->
+  uv (Concat.p_sub q) = [Z.of_nat (nth rq (ConcatIdent.intern_ids ConcatIdent.sub_eqb tbl) 0%nat)] ->
+  (zindex (Concat.m_subs m) (sub_of p) = zindex (Concat.m_subs m) (sub_of q)
+   <-> nth rp tbl (ConcatIdent.mkSub [] []) = nth rq tbl (ConcatIdent.mkSub [] [])).
+Proof.
+  intros tbl input ps m p q rp rq E OK H Ip Iq Lp Lq Up Uq.
+  pose proof (ConcatP.concat_open_facts input ps m E OK H) as O. rewrite (ConcatP.op_subs _ _ O).
+  unfold sub_of. rewrite Up, Uq. cbn [hd].
+  rewrite (same_index_iff_same_id Concat.p_sub ps p q _ _ Ip Iq Up Uq).
+  rewrite <- (ConcatIdentP.sub_ids_same tbl rp rq Lp Lq). split; [apply Nat2Z.inj|congruence].
+Qed.
+
+Theorem spws_merged_iff_identical : forall (tbl : list ConcatIdent.spwin) input ps m p q rp rq,
+  Concat.sort_parts input = Some ps -> Forall ConcatP.part_ok ps -> Concat.concat_open input = Concat.COk m ->
+  In p ps -> In q ps -> (rp < List.length tbl)%nat -> (rq < List.length tbl)%nat ->
+  uv (Concat.p_spw p) = [Z.of_nat (nth rp (ConcatIdent.intern_ids ConcatIdent.spw_eqb tbl) 0%nat)] ->
+  uv (Concat.p_spw q) = [Z.of_nat (nth rq (ConcatIdent.intern_ids ConcatIdent.spw_eqb tbl) 0%nat)] ->
+  (zindex (Concat.m_spws m) (spw_of p) = zindex (Concat.m_spws m) (spw_of q)
+   <-> nth rp tbl (ConcatIdent.mkSpw 0 0 0 0 0 0 0) = nth rq tbl (ConcatIdent.mkSpw 0 0 0 0 0 0 0)).
+Proof.
+  intros tbl input ps m p q rp rq E OK H Ip Iq Lp Lq Up Uq.
+  pose proof (ConcatP.concat_open_facts input ps m E OK H) as O. rewrite (ConcatP.op_spws _ _ O).
+  unfold spw_of. rewrite Up, Uq. cbn [hd].
+  rewrite (same_index_iff_same_id Concat.p_spw ps p q _ _ Ip Iq Up Uq).
+  rewrite <- (ConcatIdentP.spw_ids_same tbl rp rq Lp Lq). split; [apply Nat2Z.inj|congruence].
+Qed.
+
+Theorem keep_sw_open : forall input ps m s w,
+  Concat.sort_parts input = Some ps -> Forall ConcatP.part_ok ps -> Concat.concat_open input = Concat.COk m ->
+  m_keep m s w = Some (spec_keep ps s w).
+Proof. intros input ps m s w E OK H. apply keep_sw_spec. eapply ConcatP.concat_open_facts; eauto. Qed.
